@@ -29,7 +29,8 @@ REQUIRED = {
     "sbe_schema_validator::validate_valid_values": (["validate_name", "value_fits_into_type"], ""),
     "sbe_schema_validator::validate_choices": (["validate_name", "get_primitive_type_size"], ""),
     "sbe_schema_cpp_validator::validate": (["validate_schema_name", "validate_type_names", "validate_message_names"], ""),
-    "sbe_schema_cpp_validator::validate_level_members": (["validate_name", "validate_level_members"], "keyword check at every nesting level"),
+    "sbe_schema_cpp_validator::validate_level_members": (["validate_name", "validate_member_name", "validate_level_members"],
+                                                         "keyword and reserved-member-name checks at every nesting level"),
     "schema_parser::get_level_members": (["throw_if_unexpected_member_type", "throw_if_not_unique_member_name", "parse_group_member"], "order + uniqueness per level"),
     "schema_parser::parse_group_member": (["get_level_members"], "recursion into nested groups"),
     "schema_parser::parse_composite_elements": (["add_or_throw", "parse_composite_encoding"], "unique element names, nested composites"),
